@@ -907,6 +907,40 @@ pub fn c14(ctx: &Ctx, st: &mut Stats) {
         c14_prog(st, &p, &mut r);
         c14_truncations(st, &p.s, &mut r);
     }
+    // more than 65 535 pending modes (about 13 200 calls nested in argument position) with a
+    // speculation that rolls back at that depth; optimized builds only (the debug build's loop
+    // detector clones the mode stack on every step)
+    if !run::DEBUG_BUILD && ctx.shard < 4 {
+        let n = [13_200usize, 14_000, 26_300, 13_150][ctx.shard];
+        let opener = ["%a(", "%a(", "%a(b=", "%upcase("][ctx.shard];
+        // (a) the ',' of %scan omitted after a first argument that deep
+        let head = format!("%put %scan({}x y{}", opener.repeat(n), ")".repeat(n));
+        let src = format!("{head});");
+        let at = head.len();
+        st.cases += 1;
+        let ex = exec(&src);
+        st.observe_exec(&ex);
+        if let Some(res) = ex.result() {
+            let v = View::new(&src, res);
+            let d = grammar::Deletion {
+                pos: at,
+                prev_end: at,
+                error: sas_lexer::error::ErrorKind::MissingExpectedComma,
+                token: TokenType::COMMA,
+                hidden: false,
+                construct: "%scan-deep-first-arg",
+                padded: false,
+                expect_at: Some(at),
+            };
+            let fs = wellformed::check_c14(&d, at, &v);
+            record(st, &fs, &[&src]);
+            st.count("deep_first_argument_cases", 1);
+            st.nontrivial(src.as_bytes(), || sample(&src, Some(res), &format!("',' omitted after a first argument nested {n} calls deep ({} modes pending)", ex.report.max_mode_depth)));
+        }
+        // (b) the same nest cut at its deepest point
+        let cut = format!("{}x y", opener.repeat(n));
+        c14_eoi_case(st, &cut);
+    }
     // the end-of-input row holds for any source: whatever is still expected when the input ends
     // is discharged by its recovery token
     let m = ctx.draws(30_000, 600_000);
@@ -1112,6 +1146,11 @@ pub fn c15(ctx: &Ctx, st: &mut Stats) {
         let ex_a = exec(&a);
         st.observe_exec(&ex_a);
         st.count("prefixes_tried", 1);
+        if let Some(ra) = ex_a.result() {
+            let va = View::new(&a, ra);
+            let fs = compose::check_state_shadow(&va, &ex_a);
+            record(st, &fs, &[&a]);
+        }
         if !compose::is_closed(&a, &ex_a, a_src == "grammar-boundary") {
             continue;
         }
